@@ -103,14 +103,15 @@ class LogicC07:
                 self.sensors[m].queue == old.self.sensors[m].queue
                 or (
                     wire.decodable(data)
-                    and m == F(data)[0]
                     and (
+                        # (the addressee of a reply is the sender, or node 255 for the discover broadcast that
+                        # answers "gateway ready"; either way only a sleeping node's queue grows, at its end)
                         (
                             proto.sleeping(old.self, m)
-                            and not proto.is_wakeup(self.protocol_version, F(data)[2], F(data)[4])
+                            and not (m == F(data)[0] and proto.is_wakeup(self.protocol_version, F(data)[2], F(data)[4]))
                             and is_prefix(old.self.sensors[m].queue, self.sensors[m].queue)
                         )
-                        or (proto.is_wakeup(self.protocol_version, F(data)[2], F(data)[4]) and not self.sensors[m].queue)
+                        or (m == F(data)[0] and proto.is_wakeup(self.protocol_version, F(data)[2], F(data)[4]) and not self.sensors[m].queue)
                     )
                 )
             ),
